@@ -32,7 +32,12 @@ def run(ctx):
     t2 = []
     for i in range(n2):
         rs = tuple(sorted(rng.sample(range(3, ln), rng.randint(1, 3)))) if i % 2 == 0 else ()      # user resets at arbitrary stream positions
-        t = D.run(D.params(rng), D.regime_cells(rng, ln), rng.randrange(10 ** 6), enc=encs[i % len(encs)], resets=rs,
+        p = D.params(rng)
+        if i % 5 == 3:
+            # parallelize=True with at most ONE tracked rate: a single job, hence no concurrency - the same function of the inputs as the sequential path
+            # (several jobs share the bounds cache without synchronisation: spec/LFRParallel, outside this check)
+            p.update(par=True, tracked=rng.choice([["tpr"], ["tnr"], ["ppv"], ["npv"], []]))
+        t = D.run(p, D.regime_cells(rng, ln), rng.randrange(10 ** 6), enc=encs[i % len(encs)], resets=rs,
                   bads=tuple(sorted(rng.sample(range(0, ln), rng.randint(1, 3)))) if i % 3 == 0 else ())
         t["enc"] = i % len(encs)
         t2.append(t)
@@ -43,7 +48,7 @@ def run(ctx):
                  nontrivial=lambda t: any(e["state"] == "drift" for e in t["ev"]))
     ctx.assumptions += ["Monte-Carlo bounds are bound to the private _bounds dictionary when readable (otherwise no decision is forced); on a key's "
                         "first use they must lie inside an independent 20000-draw bracket (exact Beta bounds for the implementation's order statistics)",
-                        "parallelize=False (the threaded path is out of scope)"]
+                        "parallelize=True is exercised with at most one tracked rate (one job, no concurrency); the threaded path with several jobs is out of scope (spec/LFRParallel shows its hazards)"]
     return ctx.finish()
 
 
